@@ -86,6 +86,13 @@ def cases(tier, seed):
                             if not thorough and (nc == 2) != mixing and (ki, ks) != (2, 2):
                                 continue
                             yield {"kind": "rg", "rg": rg, "sp": sp, "inp": inp, "ki": ki, "ks": ks, "nc": nc, "mixing": mixing}
+    # the smallest region graphs in which two mixing layers of the same shape sit side by side (one folded mixing-weight node):
+    # 12 and 9 binary variables, Z by brute force over 4096 / 512 assignments
+    for rg in ({"alg": "quadgraph", "shape": [1, 3, 4]}, {"alg": "pd", "shape": [1, 3, 3], "delta": 1, "max_depth": None}):
+        for sp in ("cp", "cp-t"):
+            for inp in ("categorical", "binomial"):
+                for k in (2, 3):
+                    yield {"kind": "rg", "rg": rg, "sp": sp, "inp": inp, "ki": k, "ks": k, "nc": 1, "mixing": True}
     for rgname in ("quad-tree-2", "quad-tree-4", "quad-graph", "random-binary-tree", "poon-domingos"):
         for shape in ([1, 1, 2], [1, 2, 2], [2, 1, 2]):
             for sp in ("cp", "cp-t", "tucker"):
